@@ -3,6 +3,8 @@ import ZenonVerif.Model.Fetcher
 Lemmas about Model/Fetcher.lean: counting under the list operations that stand for Go's map operations, and the invariant
 `Inv` of the transition system (preserved by every handler, by the head of the loop, hence by `step`).
 -/
+set_option linter.unusedSimpArgs false
+
 namespace ZV.Fetcher
 open ZV.Gen
 
